@@ -444,4 +444,29 @@ MUTANTS = {
         checks=["C11", "C09"],
         edits=[(L, "        if pos > start:\n            toks.append(self._make_token(\"PPPRAGMASTR\", text[start:pos], start))\n        if pos < n and text[pos] == \"\\n\":\n            self._lineno += 1", "        if pos > start:\n            toks.append(self._make_token(\"PPPRAGMASTR\", text[start:pos], start))\n        if pos < n and text[pos] == \"\\n\" and pos > start:\n            self._lineno += 1")],
     ),
+    "C16-double-typename-parse": dict(
+        what="'( type-name )' is speculatively parsed twice at the cast level",
+        checks=["C16"],
+        edits=[(P, "    def _parse_cast_expression(self) -> c_ast.Node:\n        result = self._try_parse_paren_type_name()", "    def _parse_cast_expression(self) -> c_ast.Node:\n        mark0 = self._mark()\n        self._try_parse_paren_type_name()\n        self._reset(mark0)\n        result = self._try_parse_paren_type_name()")],
+    ),
+    "C16-reset-relex": dict(
+        what="_TokenStream.peek(k) rescans the buffer from the start (quadratic)",
+        checks=["C16"],
+        edits=[(P, "        self._fill(k)\n        return self._buffer[self._index + k - 1]", "        self._fill(k)\n        return [t for t in self._buffer][self._index + k - 1]")],
+    ),
+    "C16-scope-lookup-copy": dict(
+        what="_is_type_in_scope walks a merged copy of all scopes on every identifier",
+        checks=["C16"],
+        edits=[(P, "        for scope in reversed(self._scope_stack):\n            # If name is an identifier in this scope it shadows typedefs in\n            # higher scopes.\n            if name in scope:\n                return scope[name]\n        return False", "        merged = {}\n        for scope in self._scope_stack:\n            merged.update(scope)\n        return merged.get(name, False)")],
+    ),
+    "C16-declarator-scan-to-end": dict(
+        what="declarator look-ahead scans to the end of the enclosing parentheses list for every declarator",
+        checks=["C16"],
+        edits=[(P, "    def _peek_declarator_name_info(self) -> Tuple[Optional[str], bool]:\n        mark = self._mark()", "    def _peek_declarator_name_info(self) -> Tuple[Optional[str], bool]:\n        mark = self._mark()\n        k = 1\n        while self._peek(k) is not None and self._peek(k).type != \"SEMI\":\n            k += 1")],
+    ),
+    "C16-escape-regex": dict(
+        what="the decimal escape in character constants loses its look-ahead (ambiguous \\d+ again)",
+        checks=["C16"],
+        edits=[(L, '_decimal_escape = r"""(\\d+)(?!\\d)"""', '_decimal_escape = r"""(\\d+)"""')],
+    ),
 }
